@@ -1072,6 +1072,25 @@ def _documented_rejection(signed, n_bits, n_frac):
             (1 if signed else 0) + n_frac > n_bits)
 
 
+def _siblings_first(ctx, tc, signed, n_bits, n_frac):
+    """By choice: the module is loaded afresh and converters for the
+    format's sign siblings (the other signedness with the same width, and
+    with the same number of non-sign bits) are built before the format's
+    own -- what they computed is theirs."""
+    import importlib
+    if not ctx.choose(2):
+        return
+    importlib.reload(tc)
+    for (s2, n2) in ((not signed, n_bits + (-1 if signed else 1)),
+                     (not signed, n_bits)):
+        for make in (tc.float_to_fix, tc.fix_to_float, tc.float_to_fp):
+            try:
+                make(s2, n2, n_frac)
+            except Exception:
+                pass
+    ctx.witness("after-siblings")
+
+
 def _deprecated(ctx, tc, signed, n_bits, n_frac):
     """The two deprecated closures, or None when the format is rejected."""
     try:
@@ -1098,6 +1117,7 @@ def h_dep_f2x(ctx, signed, n_bits, n_frac):
     mask = (1 << n_bits) - 1
     v = fp.sym_float(ctx, "v")
     ctx.assume(scaled_finite(ctx, v, n_frac))
+    _siblings_first(ctx, tc, signed, n_bits, n_frac)
     with _stubs(tc):
         fs = _deprecated(ctx, tc, signed, n_bits, n_frac)
         if fs is None:
@@ -1126,6 +1146,7 @@ def h_dep_x2f(ctx, signed, n_bits, n_frac):
     lo, hi = _range(signed, n_bits)
     mask = (1 << n_bits) - 1
     q = fp.sym_wide_int(ctx, "q", lo, hi)
+    _siblings_first(ctx, tc, signed, n_bits, n_frac)
     with _stubs(tc):
         fs = _deprecated(ctx, tc, signed, n_bits, n_frac)
         if fs is None:
